@@ -30,6 +30,8 @@
 #define PTR_IN(lo, p, hi)      __CPROVER_pointer_in_range_dfcc((lo), (p), (hi))
 #define DER_RD_ADV(in, inlen)  (*(inlen) <= OLD(*(inlen)) && PTR_IN(OLD(*(in)), *(in), OLD(*(in)) + OLD(*(inlen))) \
                                 && *(in) == OLD(*(in)) + (OLD(*(inlen)) - *(inlen)))
+/* [p, p+n) lies inside [base, base+len), stated without forming p+n */
+#define SLICE_IN(p, n, base, len) ((n) <= (len) && PTR_IN((base), (p), (base) + (len)) && (size_t)(__CPROVER_POINTER_OFFSET(p) - __CPROVER_POINTER_OFFSET(base)) + (n) <= (len))
 #define DER_SLICE(p, in, inlen, off) (PTR_IN(OLD(*(in)), (p), OLD(*(in)) + OLD(*(inlen))) && (p) == OLD(*(in)) + (off))
 #define DER_RD_SAME(in, inlen) (*(inlen) == OLD(*(inlen)) && *(in) == OLD(*(in)))
 #define DER_CONSUMED(inlen)    (OLD(*(inlen)) - *(inlen))
@@ -428,7 +430,7 @@ REQUIRES(dlen <= (size_t)INT_MAX && d != NULL && RD_OK(d, dlen) && WR_OK(item_d,
 ASSIGNS(*item_d, *item_dlen)
 ENSURES(RET == 1 || RET == -1)
 /* whatever slice is returned lies inside [d, d+dlen) */
-ENSURES(RET == 1 IMPLIES *item_dlen <= dlen && PTR_IN(d, *item_d, d + dlen) && *item_d + *item_dlen <= d + dlen)
+ENSURES(RET == 1 IMPLIES SLICE_IN(*item_d, *item_dlen, d, dlen))
 ;
 
 /* C06: a diagnostic name lookup never indexes outside its table: result is NULL or a string constant */
